@@ -34,7 +34,7 @@ RULE = ('tables: enumerated completely on every run (16 Clifford pairs x 2 spell
         'jittered by the seed), other functions on 20 (quick) / 120 (thorough) points per parameter choice inside the domain; argument observables on one chain, '
         'two replicas, chain + covariance input, covariance only; non-trivial when the reference derivative is non-zero; distinct = (function, parameters, argument digest). Second hardening: logsumexp with 12 / 40 / 120 arguments, with a spectator argument of weight exactly 0 in the first / middle / last slot and with arguments near +-800; function objects re-used across cases and fresh ones with equal code; arguments compared with their digest before the call, the same argument objects applied a second time; all tables evaluated once more at the end of every worker process; counters judged:<mechanism> give the number of evaluations of every judgement. Degenerate kind: non-integer orders of K_n must be refused (number and observable argument), logsumexp of one argument and of all-equal arguments, beta / betaln with equal central values on different data. Boundary kind: about 75 regular points at which a derivative rule may be singular or degenerate (argument exactly 0 for iv / ive / jn / j0 / j1 / i0 / i1 / erf / erfc / erfinv / expit, erfcinv at 1, logit at 1/2, zeros of gammaln, zeros of 1/Gamma, integer and negative orders of iv / ive / jn / yn / kn incl. float and numpy-integer orders, negative arguments, expit(+-800), erf(+-30)), each on four observable layouts whose central value and replica means hit the point exactly, 12 (quick) / 60 (thorough) times')
 ASSUMPTIONS = ['mpmath besselk/besselj/.../gammainc/betainc at 40 digits are correct; derivatives by a 50-digit symmetric difference quotient validated against mpmath.diff; K_n from the upward recurrence, cross-checked against direct besselk and (closed-form vs numerical) derivative on every 16th argument',
-               'special-function values in double precision (scipy) are compared at rtol 1e-11 (1e-9 for inverse / incomplete functions), derivatives at 1e-10 / 1e-8 of the fluctuation scale',
+               'special-function values in double precision (scipy) are compared at rtol 2e-13 (1e-12 for inverse / incomplete / polygamma functions) of the condition-number scale, derivatives at 1e-12 / 1e-11 of the fluctuation scale max(|f prime|, 1e-3 |f| max(1,|x|)) - measured worst deviations on 5 000 thorough cases: 1.6e-14 and 7e-14 (jn next to an extremum 3e-13); covariance gradients at 1e-11 (shared comparison routine)',
                'derivatives are only claimed with respect to the arguments autograd differentiates (not the order of jn/yn/iv/ive/polygamma, not a of gammainc/betainc)',
                'rejection = ValueError / TypeError / LookupError; any other exception type is reported as accidental',
                'numpy / scipy / autograd as installed in /venv']
@@ -63,38 +63,38 @@ NAMED = ['gammaX', 'gammaY', 'gammaZ', 'gammaT']
 
 # special functions: name -> (parameter choices, [domain of each observable argument], value rtol, derivative rtol)
 SPEC = {
-    'j0': ([()], [(0.1, 20.0)], 1e-11, 1e-10),
-    'j1': ([()], [(0.1, 20.0)], 1e-11, 1e-10),
-    'y0': ([()], [(0.1, 20.0)], 1e-11, 1e-10),
-    'y1': ([()], [(0.1, 20.0)], 1e-11, 1e-10),
-    'jn': ([(0,), (1,), (2,), (3,), (5,)], [(0.1, 20.0)], 1e-11, 1e-10),
-    'yn': ([(0,), (1,), (2,), (3,)], [(0.3, 20.0)], 1e-11, 1e-10),
-    'i0': ([()], [(-5.0, 5.0)], 1e-11, 1e-10),
-    'i1': ([()], [(-5.0, 5.0)], 1e-11, 1e-10),
-    'iv': ([(0,), (0.5,), (1,), (2.5,)], [(0.1, 6.0)], 1e-11, 1e-10),
-    'ive': ([(0,), (0.5,), (1,), (2.5,)], [(0.1, 6.0)], 1e-11, 1e-10),
-    'beta': ([()], [(0.3, 5.0), (0.3, 5.0)], 1e-11, 1e-10),
-    'betaln': ([()], [(0.3, 5.0), (0.3, 5.0)], 1e-11, 1e-10),
-    'betainc': ([(0.5, 0.5), (2.0, 3.0), (1.5, 0.7)], [(0.05, 0.95)], 1e-9, 1e-8),
-    'polygamma': ([(0,), (1,), (2,), (3,)], [(0.3, 10.0)], 1e-10, 1e-9),
-    'psi': ([()], [(0.2, 10.0)], 1e-10, 1e-9),
-    'digamma': ([()], [(0.2, 10.0)], 1e-10, 1e-9),
-    'gamma': ([()], [(0.2, 6.0)], 1e-11, 1e-10),
-    'gammaln': ([()], [(0.2, 20.0)], 1e-11, 1e-10),
-    'gammainc': ([(0.5,), (1.0,), (2.5,), (5.0,)], [(0.05, 10.0)], 1e-9, 1e-8),
-    'gammaincc': ([(0.5,), (1.0,), (2.5,), (5.0,)], [(0.05, 10.0)], 1e-9, 1e-8),
-    'gammasgn': ([()], [(-2.8, -0.2)], 1e-11, 1e-10),
-    'rgamma': ([()], [(0.2, 6.0)], 1e-11, 1e-10),
-    'multigammaln': ([(1,), (2,), (3,)], [(1.4, 8.0)], 1e-11, 1e-10),
-    'erf': ([()], [(-3.0, 3.0)], 1e-11, 1e-10),
-    'erfc': ([()], [(-3.0, 3.0)], 1e-11, 1e-10),
-    'erfinv': ([()], [(-0.95, 0.95)], 1e-9, 1e-8),
-    'erfcinv': ([()], [(0.05, 1.95)], 1e-9, 1e-8),
-    'logit': ([()], [(0.02, 0.98)], 1e-11, 1e-10),
-    'expit': ([()], [(-8.0, 8.0)], 1e-11, 1e-10),
+    'j0': ([()], [(0.1, 20.0)], 2e-13, 1e-12),
+    'j1': ([()], [(0.1, 20.0)], 2e-13, 1e-12),
+    'y0': ([()], [(0.1, 20.0)], 2e-13, 1e-12),
+    'y1': ([()], [(0.1, 20.0)], 2e-13, 1e-12),
+    'jn': ([(0,), (1,), (2,), (3,), (5,)], [(0.1, 20.0)], 2e-13, 1e-12),
+    'yn': ([(0,), (1,), (2,), (3,)], [(0.3, 20.0)], 2e-13, 1e-12),
+    'i0': ([()], [(-5.0, 5.0)], 2e-13, 1e-12),
+    'i1': ([()], [(-5.0, 5.0)], 2e-13, 1e-12),
+    'iv': ([(0,), (0.5,), (1,), (2.5,)], [(0.1, 6.0)], 2e-13, 1e-12),
+    'ive': ([(0,), (0.5,), (1,), (2.5,)], [(0.1, 6.0)], 2e-13, 1e-12),
+    'beta': ([()], [(0.3, 5.0), (0.3, 5.0)], 2e-13, 1e-12),
+    'betaln': ([()], [(0.3, 5.0), (0.3, 5.0)], 2e-13, 1e-12),
+    'betainc': ([(0.5, 0.5), (2.0, 3.0), (1.5, 0.7)], [(0.05, 0.95)], 1e-12, 1e-11),
+    'polygamma': ([(0,), (1,), (2,), (3,)], [(0.3, 10.0)], 1e-12, 1e-11),
+    'psi': ([()], [(0.2, 10.0)], 1e-12, 1e-11),
+    'digamma': ([()], [(0.2, 10.0)], 1e-12, 1e-11),
+    'gamma': ([()], [(0.2, 6.0)], 2e-13, 1e-12),
+    'gammaln': ([()], [(0.2, 20.0)], 2e-13, 1e-12),
+    'gammainc': ([(0.5,), (1.0,), (2.5,), (5.0,)], [(0.05, 10.0)], 1e-12, 1e-11),
+    'gammaincc': ([(0.5,), (1.0,), (2.5,), (5.0,)], [(0.05, 10.0)], 1e-12, 1e-11),
+    'gammasgn': ([()], [(-2.8, -0.2)], 2e-13, 1e-12),
+    'rgamma': ([()], [(0.2, 6.0)], 2e-13, 1e-12),
+    'multigammaln': ([(1,), (2,), (3,)], [(1.4, 8.0)], 2e-13, 1e-12),
+    'erf': ([()], [(-3.0, 3.0)], 2e-13, 1e-12),
+    'erfc': ([()], [(-3.0, 3.0)], 2e-13, 1e-12),
+    'erfinv': ([()], [(-0.95, 0.95)], 1e-12, 1e-11),
+    'erfcinv': ([()], [(0.05, 1.95)], 1e-12, 1e-11),
+    'logit': ([()], [(0.02, 0.98)], 2e-13, 1e-12),
+    'expit': ([()], [(-8.0, 8.0)], 2e-13, 1e-12),
     # parameter choices of logsumexp: number of arguments (more than 10 / 100 members), or a spectator argument so far below the
     # others that its weight exp(x - result) is exactly 0 in double precision, in the first or the last slot
-    'logsumexp': ([(), ('args', 12), ('args', 40), ('args', 120), ('spectator', 'first'), ('spectator', 'last'), ('spectator', 'middle'), ('large', 800.0), ('large', -800.0)], [(-3.0, 3.0), (-3.0, 3.0), (-3.0, 3.0)], 1e-11, 1e-10),
+    'logsumexp': ([(), ('args', 12), ('args', 40), ('args', 120), ('spectator', 'first'), ('spectator', 'last'), ('spectator', 'middle'), ('large', 800.0), ('large', -800.0)], [(-3.0, 3.0), (-3.0, 3.0), (-3.0, 3.0)], 2e-13, 1e-12),
 }
 KN_ORDERS = list(range(7))
 VARIANTS = ['one-chain', 'two-replicas', 'chain+cov', 'cov-only']
@@ -515,7 +515,13 @@ def apply_and_judge(ctx, name, consts, args, ins, vals, vtol, dtol, libcall, mec
         ctx.count('borderline_derivative_within_rounding_of_zero')
         return None, None, None
     ref = dense.propagate(ins, grads, f)
-    scale = dense.delta_scale(ins, grads)
+    # fluctuations are compared on the scale max(|f'|, 1e-3 natural units): next to an extremum the double-precision derivative
+    # (a difference of neighbouring Bessel functions, say) has an absolute, not a relative, accuracy
+    # (absolute accuracy of such a rule: rounding of numbers of the size of f, e.g. ans * (1 - ans) for a saturated expit)
+    # and the rounding of the argument itself moves the derivative by f'' x eps ~ |f| |x| eps for oscillating functions: jn(1, 18.0153), f' = -5e-5,
+    # f = -0.19, is reproduced to 2.4e-16 absolutely = 4.7e-12 relatively)
+    nat = max(abs(fval), 1e-300) * max(1.0, max(abs(v) for v in vals))
+    scale = dense.delta_scale(ins, [max(abs(g), 1e-3 * nat) for g in grads])
     if exact_point:
         scale = dense.delta_scale(ins, [max(abs(g), 1e-6 * unit) for g in grads])
     if scale == 0.0:
@@ -562,7 +568,7 @@ def run_kn(ctx, idx, rng):
             def fn(v, order=order, **kw):
                 return sp.kn(order, v[0])
             KN_FUNCS.setdefault(key, fn)
-        res, ref, grads = apply_and_judge(ctx, 'kn', (n,), args, ins, vals, 1e-11, 1e-10, fn, 'kn', variant,
+        res, ref, grads = apply_and_judge(ctx, 'kn', (n,), args, ins, vals, 2e-13, 1e-12, fn, 'kn', variant,
                                           valfn=lambda v, n=n: table(v[0])[n],
                                           gradfn=lambda vv, n=n: [specfun.kn_derivative_from_table(table(vv[0]), n)], again=(n == idx % 7))
         ctx.count('kn_applications')
@@ -576,7 +582,7 @@ def run_kn(ctx, idx, rng):
     tins = [snap(twin)]
     if tins[0]['value'] == vals[0]:
         for n in (KN_ORDERS[idx % 7], KN_ORDERS[(idx + 3) % 7]):
-            apply_and_judge(ctx, 'kn', (n,), [twin], tins, [tins[0]['value']], 1e-11, 1e-10, lambda v, **kw: sp.kn(n, v[0]), 'kn', 'twin-same-value',
+            apply_and_judge(ctx, 'kn', (n,), [twin], tins, [tins[0]['value']], 2e-13, 1e-12, lambda v, **kw: sp.kn(n, v[0]), 'kn', 'twin-same-value',
                             valfn=lambda v, n=n: table(v[0])[n], gradfn=lambda vv, n=n: [specfun.kn_derivative_from_table(table(vv[0]), n)])
             ctx.count('kn_applications')
             ctx.count('kn_twin_same_value')
@@ -603,7 +609,13 @@ BOUNDARY = ([('iv', (v,), 0.0) for v in (0, 1, -1, 2, -2, 3)] + [('ive', (v,), 0
              ('iv', (-1,), 1.3), ('iv', (1,), -1.3), ('iv', (-2,), -0.7), ('iv', (-1,), -1.3), ('ive', (-1,), 1.3), ('ive', (1,), -1.3), ('ive', (-2,), -0.7),
              ('jn', (-2,), 1.1), ('jn', (3,), -2.0), ('jn', (1,), -0.5), ('jn', (-1,), -0.5), ('yn', (-1,), 1.2), ('yn', (-2,), 2.2), ('yn', (-3,), 0.9),
              ('j0', (), -2.0), ('j1', (), -2.0), ('i0', (), -2.0), ('i1', (), -2.0), ('kn', (-1,), 1.3), ('kn', (-2,), 0.4), ('kn', (-3,), 5.0), ('kn', (-6,), 2.0),
-             ('gammainc', (1.0,), 0.5), ('gammainc', (2.0,), 1.0), ('betainc', (1.0, 1.0), 0.5), ('polygamma', (0,), 1.0), ('polygamma', (1,), 2.0)])
+             ('gammainc', (1.0,), 0.5), ('gammainc', (2.0,), 1.0), ('betainc', (1.0, 1.0), 0.5), ('polygamma', (0,), 1.0), ('polygamma', (1,), 2.0)] +
+            # far out in the domain: large orders, large and tiny arguments (where mathematically equal forms of a rule differ numerically)
+            [('kn', (20,), 3.0), ('kn', (30,), 10.0), ('kn', (2,), 1e-3), ('kn', (0,), 300.0), ('kn', (1,), 600.0), ('jn', (20,), 25.0), ('jn', (50,), 60.0),
+             ('jn', (2,), 300.0), ('yn', (10,), 12.0), ('yn', (1,), 1e-3), ('iv', (10,), 2.0), ('iv', (1,), 50.0), ('iv', (0,), 500.0), ('ive', (3,), 500.0),
+             ('ive', (20,), 5.0), ('erf', (), 1e-20), ('erfc', (), 5.0), ('gammaln', (), 1e8), ('gamma', (), 25.5), ('gamma', (), 1e-8), ('expit', (), 35.0),
+             ('expit', (), -35.0), ('logit', (), 1e-12), ('digamma', (), 1e6), ('polygamma', (3,), 50.0), ('i0', (), 300.0), ('j0', (), 1000.0), ('j1', (), 1e-9),
+             ('erfinv', (), 0.999999), ('betainc', (50.0, 60.0), 0.45), ('gammainc', (100.0,), 95.0), ('gammaincc', (0.5,), 30.0)])
 
 
 def exact_arg(rng, x0, variant, k=0):
@@ -611,14 +623,18 @@ def exact_arg(rng, x0, variant, k=0):
     so that every partial sum is exact"""
     pe = PE
     ens = ['A', 'AB', 'A1'][k % 3]
-    w = 2.0 ** -6
+    # spread of the samples: a power of two (exactness of the sums is kept), small against the argument when that is tiny
+    sp2 = 1.0 if x0 == 0 else min(1.0, 2.0 ** np.floor(np.log2(abs(x0) / 4)))
+    if abs(x0) < 1 and 1 - abs(x0) < 0.25:
+        sp2 = min(sp2, 2.0 ** np.floor(np.log2((1 - abs(x0)) / 4)))          # arguments close to the end of (-1, 1)
+    w = 2.0 ** -6 * sp2
     if variant == 'cov-only':
         return pe.cov_Obs(float(x0), w * w, 'cv_%s_%d' % (ens, k))
     names = [ens + '|r1', ens + '|r2'] if variant == 'two-replicas' else [ens if rng.random() < 0.5 else ens + '|r1']
     samples, idls = [], []
     for n in names:
         half = int(rng.integers(3, 10))
-        d = rng.integers(1, 400, size=half).astype(float) * 2.0 ** -12
+        d = rng.integers(1, 400, size=half).astype(float) * 2.0 ** -12 * sp2
         x = np.empty(2 * half)
         x[0::2] = x0 + d
         x[1::2] = x0 - d
@@ -652,9 +668,11 @@ def run_boundary(ctx, idx, rng):
 
     def libcall(v, **kw):
         return f(*(cc + (v[0],)))
-    pars, doms, vtol, dtol = SPEC[name] if name != 'kn' else (None, None, 1e-11, 1e-10)
+    pars, doms, vtol, dtol = SPEC[name] if name != 'kn' else (None, None, 2e-13, 1e-12)
     mech = 'kn' if name == 'kn' else 'special:' + name
-    res, ref, grads = apply_and_judge(ctx, name, consts, [arg], ins, vals, vtol, dtol, libcall, mech, variant, again=(rep_ % 4 == 3), exact_point=True)
+    special_point = float(2 * x0).is_integer() and abs(x0) <= 2 or abs(x0) in (30.0, 800.0)
+    res, ref, grads = apply_and_judge(ctx, name, consts, [arg], ins, vals, vtol, dtol, libcall, mech, variant, again=(rep_ % 4 == 3), exact_point=special_point)
+    ctx.count('boundary_special_points' if special_point else 'boundary_far_out_or_generic_points')
     ctx.count('boundary_applications')
     ctx.cell('boundary', name, repr(tuple(consts)), repr(x0))
     if res is not None and rep_ == 0:
@@ -705,7 +723,7 @@ def run_degenerate(ctx, idx, rng):
     else:
         def libcall(v, **kw):
             return f(v[0], v[1])
-    apply_and_judge(ctx, name, (), args, ins, vals, 1e-11, 1e-10, libcall, 'special:' + name, variant, again=(rep_ % 2 == 1), exact_point=True)
+    apply_and_judge(ctx, name, (), args, ins, vals, 2e-13, 1e-12, libcall, 'special:' + name, variant, again=(rep_ % 2 == 1), exact_point=True)
     ctx.count('degenerate_argument_lists')
 
 
